@@ -338,6 +338,9 @@ class RunAnalysis:
                 if untracked:
                     ev("untracked-key")
                     fail("C18", f"at quiescence cache {s['name']} stores keys the eviction queue does not track: {len(untracked)} of {len(entries)} (schedule [{sched}])", replay)
+                    if s["limit"] is not None:
+                        fail("C04", f"once every operation has completed, cache {s['name']} (limit {s['limit']}) stores {len(untracked)} key(s) the eviction queue does not track: "
+                                    f"they are never counted against the limit and never evicted, so the cache grows past it (schedule [{sched}])", replay)
                     # capacity bookkeeping after invalidations that raced with calls (C13: conditional; C12: group / name)
                     if prog_ops & {"with", "allwith"}:
                         fail("C13", f"after conditional invalidations racing with calls, cache {s['name']} holds {len(untracked)} entr{'y' if len(untracked) == 1 else 'ies'} that no queue slot "
